@@ -153,6 +153,8 @@ def gen_case(rng, cfg, big_ok, idx):
             sched.append("w")
         else:
             sched.append("f")
+    if not use_cache and proto in ("http11ka", "http10ka", "fcgi") and rng.random() < 0.25:
+        proto += "2"      # same request again on the same connection: the second response must be identical
     return " ".join([proto, mode, ",".join(opts) or "-", ",".join(script) or "-", ",".join(sched) or "-"])
 
 
@@ -201,6 +203,7 @@ class Impl:
         w = "*" if self.real else self.wire
         c = self.cache if (self.cache == "none" or not self.real) else "*"
         self.canon = f"{w} {c} {self.ztr} {cn}"
+        self.twice = f[10].split("=", 1)[1] if len(f) > 10 and f[10].startswith("tw=") else "-"
         s = self.sched.split("=")[1].split("/")
         self.short, self.wb, self.natural, self.calls, self.wb_blocking = (int(x) for x in s)
 
@@ -292,11 +295,12 @@ def run_config(c, cfg, cases, hbin, model, stream):
         if im.short or im.natural: feats.append("shortwrite")
         if im.wb: feats.append("wouldblock")
         if "7472616e736665722d656e636f64696e67" in im.hdr.lower() or "5472616e736665722d456e636f64696e67" in im.hdr: feats.append("chunked")
-        if w[0] == "fcgi" and len(im.wire) > 2 * 65600: feats.append("multirecord")
+        if w[0].startswith("fcgi") and len(im.wire) > 2 * 65600: feats.append("multirecord")
         if im.ztr != "-": feats.append("gzip")
         if im.cache != "none": feats.append("cache")
         if im.hit: feats.append("cachehit")
         if im.calls > 1: feats.append("multiwrite")
+        if im.twice == "twice-identical": feats.append("keepalive_reuse_identical")
         for ft in feats:
             c.feature_count[ft] = c.feature_count.get(ft, 0) + 1
         if feats:
@@ -324,7 +328,7 @@ def main():
               "application runs a write script (write/put sizes around the buffer size, 65535/65536, up to 200 KiB; flush; setbuf; "
               "full_asynchronous_buffering; headers/cookies/status; page-cache fetch/store) in one of the five io_modes, gzip on/off "
               "(real zlib and a deterministic stand-in), under a socket schedule of partial accepts / EAGAIN injected by interposing writev(); "
-              "several buffer-size configurations; non-trivial = the run did at least one of: short write, would-block, chunked framing, "
+              "a quarter of the keep-alive/keep-conn cases send the request twice on one connection and require byte-identical responses (state reset between responses); several buffer-size configurations; non-trivial = the run did at least one of: short write, would-block, chunked framing, "
               "FastCGI multi-record body, gzip, page-cache store/hit, more than one socket write; distinct = distinct (configuration, case line)")
     c.trusted += [
         "translator translate/c03.py (+ cexpr.py): literals, 65535, padding formulas, record layouts, keep-alive/chunked conditions, status table -> Gen.lean; shape checks of the hand-modelled functions",
